@@ -34,6 +34,7 @@ class ClassSpec:
         self.methods = {}         # (iface, member) -> MSpec   (this class only)
         self.base = None
         self.prop_attrs = {}      # (iface, prop) -> attribute name
+        self.split_iface = None   # a base-class interface partly implemented here
 
     def all_ifaces(self):
         out = list(self.ifaces)
@@ -116,6 +117,22 @@ def class_spec(ds, tag, n_ifaces=None, with_base=None, rich=True, props=False):
             cs.methods[(d.name, mn)] = m
             if mn not in seen_plain:
                 seen_plain[mn] = m
+    # one interface bound partly in the base class and partly in the subclass: move the
+    # implementation of a decorated member of a base interface into this class
+    if with_base is not None and ds.flag(0.5):
+        movable = [(k, m) for k, m in sorted(with_base.methods.items())
+                   if m.binding == 'deco' and m.shared_with is None
+                   and not any(o.shared_with is m for o in with_base.methods.values())]
+        siblings = {}
+        for k, m in with_base.methods.items():
+            siblings.setdefault(k[0], []).append(m)
+        movable = [(k, m) for k, m in movable
+                   if sum(1 for o in siblings[k[0]] if o.binding == 'deco') >= 2]
+        if movable:
+            k, m = movable[ds.choose(len(movable))]
+            del with_base.methods[k]
+            cs.methods[k] = m
+            cs.split_iface = k[0]
     # a plain binding followed by deco for the same name: the plain one has no _dbusInterface
     # and would serve every interface; make the first one deco as well in that case
     for mn, first in seen_plain.items():
